@@ -22,6 +22,9 @@ type FS struct {
 	FailAt    *int
 	Mutations *int
 	Log       *[]string
+	// Deferred: streams opened by Writer make their bytes durable only when
+	// Close succeeds (a buffering back end); otherwise on every Write.
+	Deferred *bool
 }
 
 var ErrInjected = errors.New("injected I/O failure")
@@ -29,7 +32,8 @@ var errRef = errors.New("reference filespace: operation refused")
 
 func NewFS(root *Node) *FS {
 	calls, failAt, muts := 0, -1, 0
-	return &FS{Root: root, Calls: &calls, FailAt: &failAt, Mutations: &muts, Log: &[]string{}}
+	deferred := false
+	return &FS{Root: root, Calls: &calls, FailAt: &failAt, Mutations: &muts, Log: &[]string{}, Deferred: &deferred}
 }
 
 // fault counts one fallible call and reports whether it must fail.
@@ -224,14 +228,20 @@ func (w *whandle) Write(p []byte) (int, error) {
 		return 0, ErrInjected
 	}
 	w.buf = append(w.buf, p...)
-	w.node.Data = append([]byte{}, w.buf...)
-	*w.f.Mutations++
+	if !*w.f.Deferred {
+		w.node.Data = append([]byte{}, w.buf...)
+		*w.f.Mutations++
+	}
 	return len(p), nil
 }
 
 func (w *whandle) Close() error {
 	if w.f.fault() {
 		return ErrInjected
+	}
+	if *w.f.Deferred {
+		w.node.Data = append([]byte{}, w.buf...)
+		*w.f.Mutations++
 	}
 	return nil
 }
